@@ -7,7 +7,7 @@ import sys
 import types
 
 import pjrpc
-from pjrpc.client import AbstractAsyncClient, AbstractClient, Tracer
+from pjrpc.client import AbstractAsyncClient, AbstractClient, LoggingTracer, Tracer
 from pjrpc.client import retry as retry_mod
 from pjrpc.common import exceptions
 
@@ -98,16 +98,22 @@ def serve(st, text, is_notification):
     return json.dumps(out if isinstance(doc, list) else out[0])
 
 
-def make_tracer(st, idx):
-    class T(Tracer):
+def make_tracer(st, idx, logging_base=False):
+    """logging_base: the tracer extends the library's own LoggingTracer (and lets it do its logging first)"""
+    base = LoggingTracer if logging_base else Tracer
+
+    class T(base):
         def on_request_begin(self, trace_context, request):
+            super().on_request_begin(trace_context, request)
             st.ev.append({'ev': 'Begin', 't': idx, 'ctx': st.ctx_id(trace_context), 'req_same': request is st.request})
 
         def on_request_end(self, trace_context, request, response):
+            super().on_request_end(trace_context, request, response)
             st.ev.append({'ev': 'End', 't': idx, 'ctx': st.ctx_id(trace_context),
                           'resp': 'none' if response is None else 'response'})
 
         def on_error(self, trace_context, request, error):
+            super().on_error(trace_context, request, error)
             st.ev.append({'ev': 'Error', 't': idx, 'ctx': st.ctx_id(trace_context),
                           'exc_same': st.raised is None or error is st.raised})
     return T()
@@ -175,7 +181,9 @@ def run(scn, loop):
         st.ev.append({'ev': 'Sleep', 'd': a_delay(d)})
     retry_mod.asyncio = types.SimpleNamespace(sleep=fake_sleep)
 
-    tracers = [make_tracer(st, i + 1) for i in range(cfg['tracers'])]
+    import zlib
+    hh = zlib.crc32(json.dumps({k: v for k, v in cfg.items() if k != 'kind'}, sort_keys=True).encode())   # the same for both halves
+    tracers = [make_tracer(st, i + 1, logging_base=((hh // 2 + i) % 2 == 1)) for i in range(cfg['tracers'])]
     if is_async:
         class C(AbstractAsyncClient):
             async def _request(self, request_text, is_notification=False, **kwargs):
@@ -189,7 +197,8 @@ def run(scn, loop):
     if cfg['perreq']['k'] != 'unset':
         kwargs['_retry_strategy'] = make_strategy(cfg['perreq'])
     if cfg['ctxmode'] == 'caller':
-        st.caller_ctx = types.SimpleNamespace(who='caller')
+        # the caller's context object is the caller's business: half of the time one that takes no attributes
+        st.caller_ctx = object() if (hh // 4) % 2 else types.SimpleNamespace(who='caller')
         kwargs['_trace_ctx'] = st.caller_ctx
     if cfg['req'] == 'batch':
         st.request = pjrpc.BatchRequest(pjrpc.Request('m', [1], id=1), pjrpc.Request('n', {'a': 2}), pjrpc.Request('m', [], id='x'))
